@@ -191,6 +191,7 @@ structure Proxy where
   noSpawn : Bool := false                   -- `graph_children = {}` (orphaned by a reload)
   dbSn : Nat := 0                           -- `submit_num` of the instance's task_states row
   tsDirty : Bool := false                   -- `TaskState.time_updated` is set: the row is refreshed by the next put_task_pool
+  forced : List String := []                -- output messages completed by `cylc set --out` (`TaskOutputs._forced`)
   deriving Repr, Inhabited
 
 structure Hist where                        -- a removed instance as recorded in the DB
@@ -199,6 +200,7 @@ structure Hist where                        -- a removed instance as recorded in
   status : Status
   submitNum : Nat
   done : List String := []                  -- completed output messages (`task_outputs` table)
+  erased : Bool := false                    -- `cylc remove` took the rows out of every flow (the submit number still counts)
   deriving Repr, Inhabited
 
 structure Msg where
@@ -317,6 +319,11 @@ def Proxy.reset (x : Proxy) (status : Option Status := none) (queued : Option Bo
   if y.status == x.status && y.queued == x.queued && y.runahead == x.runahead && y.held == x.held then x
   else { y with upd := true, tsDirty := true }
 
+/-- the task_outputs value of a manually completed output is a placeholder, not the message -/
+def forcedMark : String := "(manually completed) "
+
+def unmark (m : String) : String := if m.startsWith forcedMark then (m.drop forcedMark.length).toString else m
+
 /-- `can_be_spawned` + proxy construction; `none` when out of bounds / off sequence -/
 def mkProxy (g : Graph) (name : String) (p : Int) : Option Proxy := do
   let t ← g.task? name
@@ -328,20 +335,24 @@ def mkProxy (g : Graph) (name : String) (p : Int) : Option Proxy := do
 /-- `spawn_task` (single flow): consult the DB history of the instance, then build the proxy;
 a new proxy is held when a hold was requested for it earlier or it lies beyond the hold point -/
 def spawnTask (g : Graph) (s : State) (name : String) (p : Int) : State × Option Proxy :=
-  let hist := (s.hist.filter fun h => h.pt == p && h.name == name).getLast?
+  -- (`_get_task_history`: the rows `cylc remove` erased belong to no flow any more, but their submit number counts)
+  let hist := (s.hist.filter fun h => h.pt == p && h.name == name && !h.erased).getLast?
+  let maxSn := ((s.hist.filter fun h => h.pt == p && h.name == name).map (·.submitNum)).foldl max 0
   if hist.isNone && p < g.start then (s, none)       -- warm start: pre-start instances count as run
   else match mkProxy g name p with
     | none => (s, none)
-    | some x =>
-      -- `_load_historical_outputs`: the completed outputs come from the committed task_outputs row
-      let hdone : List String := match s.dbOut.find? (·.1 == (p, name)) with | some r => r.2 | none => []
+    | some x0 =>
+      let x := { x0 with submitNum := maxSn, dbSn := maxSn }
+      -- `_load_historical_outputs`: the completed outputs come from the committed task_outputs row (matched by
+      -- trigger: a manually completed one counts, its forced mark is not restored)
+      let hdone : List String := match s.dbOut.find? (·.1 == (p, name)) with | some r => r.2.map unmark | none => []
       let revived : Option Proxy :=
         match hist with
         | none => some x
         | some h =>
           if hdone.isEmpty then none                  -- "task was removed" (suicide leaves no outputs)
           else
-            let y := { x with status := h.status, submitNum := h.submitNum, done := hdone, dbSn := h.submitNum }
+            let y := { x with status := h.status, done := hdone }
             if h.status.isFinal then
               match g.task? name with
               | some t => if isComplete t hdone then none else some y    -- finished and complete: not re-run
@@ -502,7 +513,7 @@ def remove (g : Graph) (s : State) (x : Proxy) : State :=
   let s := if !x.flows.isEmpty && x.runahead then spawnNextParentless g s x else s
   flushDb { s with
     pool := s.pool.filter (fun y => !(y.pt == x.pt && y.name == x.name)),
-    hist := s.hist ++ [⟨x.pt, x.name, x.status, x.submitNum, x.done⟩],
+    hist := s.hist ++ [⟨x.pt, x.name, x.status, x.submitNum, x.done, false⟩],
     ghosts := s.ghosts ++ [x] }
 
 /-- `remove_if_complete` -/
@@ -594,9 +605,12 @@ def store (s : State) (x : Proxy) (transient : Bool) : State :=
 
 /-- `put_update_task_outputs`: the `task_outputs` row of the instance := the proxy's completed outputs -/
 def putOutputs (s : State) (x : Proxy) : State :=
+  -- (`get_completed_outputs`: the message, or the placeholder for a forced output - `check_task_output` looks for
+  -- the message among these values, so a manually completed output does not count as recorded)
+  let row := x.done.map fun m => if x.forced.contains m then forcedMark ++ m else m
   if s.dbOut.any (·.1 == (x.pt, x.name)) then
-    { s with dbOut := s.dbOut.map fun r => if r.1 == (x.pt, x.name) then (r.1, x.done) else r }
-  else { s with dbOut := s.dbOut ++ [((x.pt, x.name), x.done)] }
+    { s with dbOut := s.dbOut.map fun r => if r.1 == (x.pt, x.name) then (r.1, row) else r }
+  else { s with dbOut := s.dbOut ++ [((x.pt, x.name), row)] }
 
 /-- `spawn_children`: the outputs row is updated; transient objects do not spawn -/
 def spawnChildren (g : Graph) (s : State) (p : Int) (n : String) (out : String) (transient : Bool) : State :=
@@ -735,6 +749,10 @@ inductive Op where
   /-- `cylc reload`: `ng` = the instance graph of the new definition (`none`: the definition was rejected),
   `inloop`: queued and executed by a main-loop iteration (else run between main loops), `skipped`: not attempted -/
   | reload (ng : Option Graph) (inloop : Bool) (skipped : Bool)
+  /-- `cylc remove pt/name` (one instance, all flows); `order`: the order in which its graph children were walked -/
+  | rm (pt : Int) (name : String) (order : List (Int × String))
+  /-- `cylc set --out=trig pt/name` (pooled target, custom output, default flow) -/
+  | setOut (pt : Int) (name : String) (trig : String)
   deriving Repr
 
 def clearOp (s : State) : State := { s with launched := [], polls := [], ghosts := [], db := none }
@@ -987,6 +1005,7 @@ def restart (g : Graph) (s : State) : State :=
     -- (the proxies whose state is reset while loading - preparing -> waiting, released final ones - get a fresh
     -- `time_updated`: their task_states row is refreshed by the next put_task_pool)
     { x with status := status, submitNum := sn, dbSn := dbSn, tsDirty := (x.status == .preparing) || final,
+             forced := [],
              done := if keepOut then x.done.filter (fun m => x.outs.any (·.message == m)) else [],
              queued := false, runahead := !final, retryWait := false, live := false,
              upd := (x.status == .preparing) || final }
@@ -1008,6 +1027,108 @@ def restart (g : Graph) (s : State) : State :=
   | some hp => setHoldPoint s' hp
   | none => s'
 
+/-! ### `cylc remove` (one instance, all flows) and `cylc set --out` (one custom output of a pooled task) -/
+
+/-- `remove_task_from_flows` (no --flow): the task_states / task_outputs rows of the instance leave every flow - they no
+longer count as history or as recorded outputs, only their submit number still does -/
+def eraseHistory (s : State) (p : Int) (n : String) : State :=
+  { s with hist := s.hist.map fun h => if h.pt == p && h.name == n then { h with erased := true } else h,
+           dbOut := s.dbOut.filter fun r => r.1 != (p, n) }
+
+/-- `Prerequisite.unset_naturally_satisfied`: every (not force-) satisfied atom on an output of `p/n` -/
+def Pre.unsetFrom (pr : Pre) (p : Int) (n : String) : Pre :=
+  { pr with atoms := pr.atoms.map fun (a, v) => if a.pt == p && a.task == n then (a, false) else (a, v) }
+
+def Pre.dependsOn (pr : Pre) (p : Int) (n : String) : Bool :=
+  pr.atoms.any fun (a, v) => a.pt == p && a.task == n && v
+
+/-- one pooled graph child of the removed instance `p/n` stands down: its prerequisites on `p/n` are unset; if it is
+then no longer ready it is unqueued, and removed (history erased) when no satisfied prerequisite is left -/
+def standDown (g : Graph) (p : Int) (n : String) (st : State) (c : Int × String) : State × Bool :=
+  match st.get? c.1 c.2 with
+  | none => (st, false)
+  | some y =>
+    if !((y.pre ++ y.sui).any fun pr => pr.dependsOn p n) then (st, false) else
+    let y := { y with pre := y.pre.map (·.unsetFrom p n), sui := y.sui.map (·.unsetFrom p n) }
+    let st := st.put y
+    if y.status.rank ≥ Status.preparing.rank || y.prereqsSatisfied then (st, true) else
+    let y := y.reset (queued := some false)
+    let st := st.put y
+    if c == (p, n) || y.pre.any (fun pr => pr.atoms.any (·.2)) then (st, true) else
+    (eraseHistory (remove g st y) c.1 c.2, true)
+
+/-- does a (non-forced) `compute_runahead` recompute the limit (its return value) -/
+def runaheadRecomputes (g : Graph) (s : State) : Bool :=
+  let base : Option Int :=
+    if s.pool.isEmpty then minOf (g.seqs.filterMap fun q => q.find? (· ≥ g.start))
+    else minOf (s.pool.map (·.pt))
+  match base with
+  | none => false
+  | some b => !(s.rhLimit.isSome && (b == s.prevBase.getD b || s.rhLimit == s.stopPoint))
+
+def dedupKeys : List (Int × String) → List (Int × String)
+  | [] => []
+  | k :: ks => if (dedupKeys ks).contains k then dedupKeys ks else k :: dedupKeys ks
+
+/-- the pooled graph children of the removed instance stand down, in the order given; has any changed -/
+def standDownAll (g : Graph) (p : Int) (n : String) (s : State) (cs : List (Int × String)) : State × Bool :=
+  cs.foldl (fun (acc : State × Bool) c => ((standDown g p n acc.1 c).1, acc.2 || (standDown g p n acc.1 c).2)) (s, false)
+
+/-- the graph children of `p/n` (`generate_graph_children`, a set), in the order the code walked them -/
+def childOrder (t : TaskDefn) (p : Int) (order : List (Int × String)) : List (Int × String) :=
+  let children := dedupKeys (((t.anyInst p).children.flatMap (·.2)).map fun c => (c.pt, c.name))
+  (order.filter children.contains) ++ (children.filter fun c => !order.contains c)
+
+/-- `if removed and compute_runahead(): release_runahead_tasks()` -/
+def removeTail (g : Graph) (s : State) (removed : Bool) : State :=
+  if removed then
+    if runaheadRecomputes g s then (releaseRunahead g (computeRunahead g s)).1 else computeRunahead g s
+  else s
+
+/-- the target leaves the pool (if it is there) -/
+def removeTarget (g : Graph) (s : State) (p : Int) (n : String) : State :=
+  match s.get? p n with
+  | some x => remove g s x
+  | none => s
+
+/-- `commands.remove_tasks` for ONE matched instance and no `--flow` (= all flows): `_remove_matched_tasks`.  `order`:
+the order in which the code walked the (set of) graph children.  A pooled target is taken out of the pool (a target
+with a job is not modelled: the kill of its job is not), its pooled graph children stand down, its history is erased,
+the runahead limit is recomputed if anything was removed. -/
+def removeTask (g : Graph) (s : State) (p : Int) (n : String) (order : List (Int × String)) : State :=
+  match g.task? n with
+  | none => s                                     -- `id_match`: not a task of the configuration
+  | some t =>
+    if (s.get? p n).isNone && (t.inst? p).isNone then s else   -- neither pooled nor a valid instance: unmatched
+    let s0 := flushDb s
+    let rowsExist := (s0.get? p n).isSome || s0.hist.any fun h => h.pt == p && h.name == n && !h.erased
+    let r := standDownAll g p n (removeTarget g s0 p n) (childOrder t p order)
+    removeTail g (flushDb (eraseHistory r.1 p n)) (rowsExist || r.2)
+
+/-- the forced completion of one output message of the pooled proxy `x` -/
+def forceOutput (g : Graph) (s : State) (x : Proxy) (msg : String) : State :=
+  if !x.outs.any (·.message == msg) || x.done.contains msg then s else
+  spawnChildren g (s.put { x with done := x.done ++ [msg], forced := x.forced ++ [msg] }) x.pt x.name msg false
+
+/-- `if not itask.state(waiting): state_reset(is_runahead=False, is_queued=False)` -/
+def setTail (s : State) (p : Int) (n : String) : State :=
+  match s.get? p n with
+  | some y => if y.status != .waiting then s.put (y.reset (runahead := some false) (queued := some false)) else s
+  | none => s
+
+/-- `cylc set --out=<trig>` on the pooled instance `p/n`, default flow, no --wait, `trig` a custom output
+(`set_prereqs_and_outputs` -> `_set_outputs_itask` -> `process_message(forced=True)`): the output is completed with
+the forced mark, the outputs row is updated, the children are spawned / satisfied as for a natural completion; a
+non-waiting target is taken off the runahead / queued flags.  (Targets outside the pool and standard outputs are not
+modelled.) -/
+def setOut (g : Graph) (s : State) (p : Int) (n : String) (trig : String) : State :=
+  match s.get? p n with
+  | none => s
+  | some x =>
+    match (g.task? n).bind fun t => t.outputs.find? (·.trigger == trig) with
+    | none => setTail s p n
+    | some o => setTail (forceOutput g s x o.message) p n
+
 def step (s : State) (op : Op) : State :=
   let s := clearOp s
   let g := s.g
@@ -1028,6 +1149,8 @@ def step (s : State) (op : Op) : State :=
   | .restart => restart g s
   | .reload ng inloop skipped =>
       if skipped then s else if inloop then mainLoop s (some ng) else reloadCmd ng s
+  | .rm p n order => removeTask g s p n order
+  | .setOut p n trig => setOut g s p n trig
 
 def init (fl : Flags) (g : Graph) : State :=
   let s := loadFromPoint fl g
